@@ -419,9 +419,19 @@ func main() {
 	switch os.Args[1] {
 	case "gen":
 		r := rand.New(rand.NewSource(*seed))
+		failed := 0
 		for i := 0; i < *n; i++ {
 			h := genHistory(r, i, 5+r.Intn(*steps))
 			if !runOne(&h, w) {
+				w.Close()
+				os.Exit(0)
+			}
+			for _, st := range h.Steps {
+				if st.Pan != "" {
+					failed++
+				}
+			}
+			if failed >= 3 { // every failed quiescence wait costs seconds: three failing histories are enough to report
 				w.Close()
 				os.Exit(0)
 			}
